@@ -429,6 +429,24 @@ def desugar(F):
                 b._cfg_cache = None
                 done.append((c.split('::')[-1], p))
                 continue
+            if c in (_O + 'or', _O + 'and') and len(t['args']) == 2 and t['args'][0]['k'] != 'const' and not t['args'][0]['p']['proj']:
+                # a.or(b)  ->  match a { Some(_) => a, None => b }        a.and(b)  ->  match a { Some(_) => b, None => None }
+                recv, other = t['args']
+                b.locals.append({'ty': 'isize', 'name': None, 'user': False})
+                dl = {'l': len(b.locals) - 1, 'proj': []}
+                none = {'k': 'agg', 'ak': 'adt', 'adt': 'std::option::Option', 'variant': 0, 'vname': 'None', 'fields': [], 'ops': []}
+                take_recv = {'k': 'use', 'ops': [{'k': 'move', 'p': {'l': recv['p']['l'], 'proj': []}}]}
+                take_other = {'k': 'use', 'ops': [other]}
+                is_or = c.endswith('::or')
+                b_some = len(b.blocks)
+                b.blocks.append({'stmts': [dict(pos, dst=dst, rv=take_recv if is_or else take_other)], 'cleanup': False, 'term': dict(pos, k='goto', target=target)})
+                b_none = len(b.blocks)
+                b.blocks.append({'stmts': [dict(pos, dst=dst, rv=take_other if is_or else none)], 'cleanup': False, 'term': dict(pos, k='goto', target=target)})
+                b.blocks[bi]['stmts'].append(dict(pos, dst=dl, rv={'k': 'discr', 'p': {'l': recv['p']['l'], 'proj': []}}))
+                b.blocks[bi]['term'] = dict(pos, k='switch', on={'k': 'move', 'p': dl}, targets=[[0, b_none]], otherwise=b_some, desugared=c.split('::')[-1])
+                b._cfg_cache = None
+                done.append((c.split('::')[-1], p))
+                continue
             if c == _O + 'filter' and len(t['args']) == 2:
                 # opt.filter(|v| p(v))  ->  match opt { Some(v) if p(&v) => Some(v), _ => None }
                 recv = t['args'][0]
